@@ -66,7 +66,10 @@ class Ctx:
         for rw in rewrites:
             e.rewrite(*rw) if isinstance(rw, tuple) else e.rewrite(**rw)
         for ins in inserts:
-            e.insert_after(*ins)
+            if len(ins) == 4 and ins[3] == 'before':
+                e.insert_before(*ins[:3])
+            else:
+                e.insert_after(*ins)
         for tr in transforms:
             tr(e)
         if pub:
